@@ -239,3 +239,54 @@ package connect
 //@   ensures let v := hget(request.Header, "Connect-Timeout-Ms") in v == "" ==> err == nil && ctx == reqctx(request) && cancel == nil    // label: absent-is-unbounded
 //@   ensures let v := hget(request.Header, "Connect-Timeout-Ms") in isNum10(v) && |v| <= 10 ==> err == nil && ctx == ctxWithTimeout(reqctx(request), val10(v) * 1000000)   // label: grammatical-honoured-exactly
 //@   ensures let v := hget(request.Header, "Connect-Timeout-Ms") in |v| > 10 || (v != "" && !isInt10(v)) ==> err != nil && coded(err) && codeOf(err) == 3   // label: malformed-is-invalid-argument
+
+// ---------------------------------------------------------------------------
+// handler.go: dispatch
+// ---------------------------------------------------------------------------
+
+// implCalls counts calls of Handler.implementation (user code wrapped in the
+// interceptors). The field is read in ServeHTTP only (mechanical scan), so no
+// other function can run it.
+//@ ghostfield global implCalls int
+//@ ghostfield ctmap ref
+//@ onlycalledfrom field:Handler.implementation (*Handler).ServeHTTP
+//@ constfield Handler.implementation, Handler.protocolHandlers, Handler.acceptPost, Spec.StreamType, Spec.Procedure, Spec.IsClient
+
+// Interface contracts. They are assumed at invoke sites and proved for the
+// module's implementations (clause `implements`).
+//@ trusted func protocolHandler.ContentTypes(p) res
+//@   ensures res == ctmap(p)
+//@ trusted func protocolHandler.SetTimeout(p, request) (ctx, cancel, err)
+//@   requires request != nil
+//@   ensures err == nil ==> ctx != nil
+//@ trusted func protocolHandler.NewConn(p, w, r) (conn, ok)
+//@   assigns everything
+//@   ensures ok ==> conn != nil
+//@ trusted func handlerConnCloser.Close(c, err) res
+//@   assigns everything
+//@ trusted func field:Handler.implementation(ctx, conn) res
+//@   assigns everything, implCalls()
+//@   ensures implCalls() == old(implCalls()) + 1
+//@ trusted func ret:protocolHandler.SetTimeout.1()
+//@   doc: "context.CancelFunc: releases the context's resources; no effect on modelled state"
+
+//@ macro isBidiOverHTTP1(h *Handler, request *http.Request) bool = h.spec.StreamType % 4 == 3 && request.ProtoMajor < 2
+//@ macro accepted(h *Handler, ct seq) bool = exists j int :: 0 <= j && j < |h.protocolHandlers| && mapdom(cast(ctmap(h.protocolHandlers[j]), "map[string]struct{}"), ct)
+
+//@ func (*Handler).ServeHTTP(h, responseWriter, request)
+//@   tags C07, C10, C12
+//@   requires h != nil && responseWriter != nil && request != nil && rwstatus(responseWriter) == 0 && h.implementation != nil
+//@   requires forall j int :: {h.protocolHandlers[j]} 0 <= j && j < |h.protocolHandlers| ==> h.protocolHandlers[j] != nil
+//@   assigns everything, implCalls()
+//@   ensures implCalls() == old(implCalls()) || implCalls() == old(implCalls()) + 1                                  // label: user-code-at-most-once
+//@   ensures old(isBidiOverHTTP1(h, request)) ==> (rwstatus(responseWriter) == 505 || rwstatus(responseWriter) == 405) && implCalls() == old(implCalls())   // label: bidi-over-http1-505
+//@   ensures old(!isBidiOverHTTP1(h, request) && request.Method != "POST") ==> rwstatus(responseWriter) == 405 && hvals(rwheader(responseWriter), "Allow") == ["POST"] && implCalls() == old(implCalls())   // label: non-post-405-allow-post
+//@   ensures old(!isBidiOverHTTP1(h, request) && request.Method == "POST" && !accepted(h, hget(request.Header, "Content-Type"))) ==> rwstatus(responseWriter) == 415 && hvals(rwheader(responseWriter), "Accept-Post") == [old(h.acceptPost)] && implCalls() == old(implCalls())   // label: unserved-content-type-415-accept-post
+//@   ensures called("protocolHandler.NewConn", 1) && !callresb("protocolHandler.NewConn", 1, 1) ==> implCalls() == old(implCalls())   // label: negotiation-failure-runs-no-user-code
+//@   ensures called("protocolHandler.SetTimeout", 1) && callres("protocolHandler.SetTimeout", 1, 2) != nil ==> implCalls() == old(implCalls())   // label: invalid-timeout-runs-no-user-code
+//@   ensures old(!isBidiOverHTTP1(h, request) && request.Method == "POST" && accepted(h, hget(request.Header, "Content-Type"))) && callresb("protocolHandler.NewConn", 1, 1) && callres("protocolHandler.SetTimeout", 1, 2) == nil ==> implCalls() == old(implCalls()) + 1   // label: accepted-runs-exactly-once
+//@   assert@call(field:Handler.implementation#1): arg0 == callres("protocolHandler.SetTimeout", 1, 0) && callres("protocolHandler.SetTimeout", 1, 2) == nil   // label: handler-context-is-the-timeout-context
+//@   loop 1:
+//@     invariant 0 - 1 <= rangeindex && rangeindex < |h.protocolHandlers| && protocolHandler == nil
+//@     invariant forall j int :: {h.protocolHandlers[j]} 0 <= j && j <= rangeindex ==> !mapdom(cast(ctmap(h.protocolHandlers[j]), "map[string]struct{}"), contentType)
+//@     decreases |h.protocolHandlers| - rangeindex
